@@ -172,6 +172,36 @@ fn main() {
             let con = (0..nmod).all(|a| reach(nmod, &fadj, a).iter().all(|d| d.is_some()));
             if t.connected() != con { fail("connected-after-filter-edges", &scen, format!("{} for edges {:?}", con, w), format!("{}", t.connected())); }
         }
+        // ---- one-directional filters: only edges towards a later node / only edges towards an earlier node (node order of the view)
+        for dir in 0..2 {
+            let mut t = topo.clone();
+            let order: Vec<String> = t.nodes().iter().map(|n| n.module().path().to_string()).collect();
+            let pos = |p: &str| order.iter().position(|x| x == p).unwrap();
+            let keep = |a: &str, b: &str| if dir == 0 { pos(a) < pos(b) } else { pos(a) > pos(b) };
+            t.filter_edges(|e| keep(&e.from.module().path().to_string(), &e.to.module().path().to_string()));
+            let w: Vec<E> = ref_named.iter().filter(|r| keep(&r.0, &r.2)).cloned().collect();
+            let g = edges_of(&t);
+            if g != w { fail("filter-edges-one-direction", &scen, format!("{:?}", w), format!("{:?}", g)); }
+            let bid = w.is_empty();
+            if t.bidirectional() != bid { fail("bidirectional-with-one-way-edges", &scen, format!("{} for edges {:?}", bid, w), format!("{}", t.bidirectional())); }
+            let mut fadj: Vec<Vec<usize>> = vec![vec![]; nmod];
+            for r in w.iter() { fadj[idx[&r.0]].push(idx[&r.2]); }
+            let con = (0..nmod).all(|a| reach(nmod, &fadj, a).iter().all(|d| d.is_some()));
+            if t.connected() != con { fail("connected-with-one-way-edges", &scen, format!("{} for edges {:?}", con, w), format!("{}", t.connected())); }
+        }
+        // ---- the view over a subset of the modules: edges to modules outside the subset are not recorded
+        {
+            let mask = rnd();
+            let sel: Vec<usize> = (0..nmod).filter(|i| (mask >> i) & 1 == 1).collect();
+            let refs: Vec<ModuleRef> = sel.iter().map(|&i| sim.get(&paths[i].as_str().into()).unwrap()).collect();
+            let t = Topology::from_modules(&refs);
+            let gn: Vec<String> = t.nodes().iter().map(|n| n.module().path().to_string()).collect();
+            let wn: Vec<String> = sel.iter().map(|&i| paths[i].clone()).collect();
+            if gn != wn { fail("subset-view-nodes", &scen, format!("{:?}", wn), format!("{:?}", gn)); }
+            let w: Vec<E> = ref_named.iter().filter(|r| wn.contains(&r.0) && wn.contains(&r.2)).cloned().collect();
+            let g = edges_of(&t);
+            if g != w { fail("subset-view-edges", &scen, format!("modules {:?}: {:?}", wn, w), format!("{:?}", g)); }
+        }
         // ---- filter_nodes
         {
             let mut t = topo.clone();
